@@ -4,9 +4,10 @@ import AranyaV.Model.Cli
 
 Decision logic, stated outright over every combination of library verdicts, environment
 results and flags.  The theorems about `cli` (the current tree) are obtained from the generic
-`…_of` lemmas by `rfl` on the two constants generated from the Rust source; if `main` negates
-`validate`'s result again (defect F5), or `validate` changes what `true` means, those `rfl`s —
-and therefore this module — no longer check.
+`…_of` lemmas by `rfl` on the constant generated from the Rust source (`guardNegated`) against the library contract
+`validateTrueMeansFailed`; if `main` negates `validate`'s result again (defect F5) those `rfl`s — and
+therefore this module — no longer check.  A change of what `validate` returns (polarity, or only
+the last label counting) is caught by the harness's `vparts` oracle on the real library.
 -/
 namespace AranyaV.Cli
 open Gen.CliMain
@@ -48,6 +49,15 @@ theorem cli_accepts_of {neg tmf : Bool} (h : neg = !tmf) (a : Input)
     simp_all [cliWith, failedWith]
 
 /-! ## the current tree -/
+
+/-- the validation guard of the CLI has a shape the translator recognises (so `guardNegated` means
+what it says) -/
+theorem guard_recognised : guardRecognised = true := rfl
+
+/-- a module fails validation exactly when some label — wherever it sits — has a trace failure -/
+theorem validate_any_label (pre post : List Bool) :
+    validateOf (pre ++ true :: post) = true ∧ validateOf (List.replicate pre.length false) = false := by
+  simp [validateOf, validateOfWith, validateTrueMeansFailed]
 
 /-- the guard polarity in `main` matches the polarity of `validate`'s result -/
 theorem polarity_consistent : guardNegated = !validateTrueMeansFailed := rfl
